@@ -93,10 +93,21 @@ Section Plume.
       (((x * x) / (a0 * a0)) + ((y * y) / (b0 * b0))) + ((z * z) / (c0 * c0))
     else fraction_from_ellipse_center c a e th p.
 
+  (** the surface point of the query; in spherical coordinates the copy (longitude, longitude +- 2 pi)
+      closest in longitude to the centre of the cross-section at this depth *)
+  Definition plume_point (sph : bool) (pl : plume_feature) (q : query) : pt2 :=
+    let p := surf_point sph q in
+    if sph then
+      let '(c, _, _, _) := plume_section pl (q_depth q) in
+      if fpi <? (fst p - fst c) then (fst p - (f2 * fpi), snd p)
+      else if (fst p - fst c) <? - fpi then (fst p + (f2 * fpi), snd p)
+      else p
+    else p.
+
   Definition plume_covers (sph : bool) (pl : plume_feature) (q : query) : bool :=
     let d := q_depth q in
     if d <? pl_min pl then false
-    else (d <=? pl_max pl) && (pl_min pl <=? d) && (plume_rel_distance pl (surf_point sph q) d <=? f1).
+    else (d <=? pl_max pl) && (pl_min pl <=? d) && (plume_rel_distance pl (plume_point sph pl q) d <=? f1).
 
   Definition ptemp_eval (g : @globals F) (pl : plume_feature) (q : query) (rdc : F) (m : ptemp_model) (old : F) : F :=
     let d := q_depth q in
@@ -121,7 +132,7 @@ Section Plume.
 
   Definition plume_paint (g : @globals F) (tape : nat -> F) (sph : bool) (pl : plume_feature) (q : query)
              (p : prop_req) (t : nat) (blk : list F) : list F * nat :=
-    let rdc := plume_rel_distance pl (surf_point sph q) (q_depth q) in
+    let rdc := plume_rel_distance pl (plume_point sph pl q) (q_depth q) in
     match p with
     | PTemp => ([fold_left (fun old m => ptemp_eval g pl q rdc m old) (pl_temp pl) (nth 0 blk f0)], t)
     | PComp c =>
